@@ -309,6 +309,10 @@ class Prop:
         for o, n, m in zip(old, new, models):
             if type(n) is not type(o) or n is o:
                 raise Violation("C14.copy-class", "%s: copy of R%d is %r" % (how, m["uid"], type(n)), step)
+            if o.traits_inited() and not n.traits_inited():
+                raise Violation("C14.copy-not-live", "%s: the copy of R%d does not report "
+                                "traits_inited() (the original does): it still looks as if it "
+                                "were under construction" % (how, m["uid"]), step)
             self.check_state(n, m, "after %s" % how, step)
             # (the transient ``log`` is written by the declared observers while the
             # copy is being filled, so only ``scratch`` witnesses transience)
@@ -383,6 +387,9 @@ class Prop:
             raise Violation("C14.copy", "%s of R%d raised %r" % (mode, m["uid"], e), step)
         if type(c) is not type(x) or c is x:
             raise Violation("C14.copy-class", "%s gave %r" % (mode, type(c)), step)
+        if mode != "copy" and x.traits_inited() and not c.traits_inited():
+            raise Violation("C14.copy-not-live", "%s: the copy of R%d does not report "
+                            "traits_inited() (the original does)" % (mode, m["uid"]), step)
         got = self.snapshot(c)
         want = self.settle_pv(got, self.model_snapshot(m))
         # value-level equality (object links compared by uid: copies keep the uid)
